@@ -2227,6 +2227,557 @@ def generate_glue_dense():
 # ---- END dense-time glue (generate_glue_dense) ---------------------------------------------------------------------
 
 
+# ---- BEGIN discrete-time online update()/reset() as whole methods (generate_glue_update) ----------------------------
+# `AbstractDiscreteTimeOnlineInterpreter.update(timestamp, dataset)` / `.reset()` / `.set_variable_to_ast_from_dataset`
+# of rtamt/semantics/abstract_discrete_time_online_interpreter.py -> Rtamt/Py/GeneratedGlueUpd.lean (terms of
+# `Rtamt/Py/GlueUpd.lean`).  The statements of the sampling bookkeeping (maximal runs of consecutive statements that touch
+# `update_counter` / `previous_time` / `sampling_violation_counter`) are translated by the translator of `generate_clock`
+# (`Tr` with `clock = True`) into terms of `Rtamt/Py/Sem.lean` and embedded as `.clock <S>`.
+import re as _re_upd
+
+OUT_GLUE_UPD = os.path.join(os.path.dirname(HERE), "lean", "Rtamt", "Py", "GeneratedGlueUpd.lean")
+GLUE_UPD_INTERP_FILE = os.environ.get("RTAMT_UPD_INTERP_FILE")       # (tests) another copy of the interpreter's source
+GLUE_UPD_PARENT_FILE = os.environ.get("RTAMT_UPD_PARENT_FILE")       # (tests) another copy of abstract_online_interpreter.py
+
+
+class GlueUpdTr(GlueDnTr):
+    """The methods of `AbstractDiscreteTimeOnlineInterpreter` -> terms of `Rtamt/Py/GlueUpd.lean`."""
+
+    OPAQUE = ("self.exist_ast()",
+              "self.ast.results = self.updateVisitor.results",
+              "out = self.ast.var_object_dict[self.ast.out_var]")
+    RESET_AST = "self.resetVisitor.visitAst(self.ast, self.online_operator_dict)"
+    FOR_FREE = "self.ast.free_vars"
+
+    def __init__(self, cls, clock_tr, parent_name=None, parent_cls=None):
+        GlueDnTr.__init__(self, cls, None, None, interp=True)
+        self.cls_name = cls.name
+        self.first_base = src(cls.bases[0]) if cls.bases else None
+        self.clock_tr = clock_tr                       # `Tr` (clock = True) of the same class
+        self.parent_name = parent_name                 # the first base class, provided it was found …
+        self.parent = {n.name: n for n in parent_cls.body if isinstance(n, ast.FunctionDef)} if parent_cls is not None else {}
+        self.free_var = None                           # the loop variable of `for x in self.ast.free_vars`
+        self.data_iter = None
+        self.top = None                                # the method being translated (not an inlined one)
+        self.scope = []                                # that method and the methods inlined into it
+        self.scope_final = None
+
+    # -- expressions ------------------------------------------------------------------------------------------------
+    def expr(self, e):
+        t = src(e)
+        if isinstance(e, ast.Name):
+            return "(.loc %s)" % q(e.id)
+        if t == self.VISIT_AST:
+            return ".visitAst"
+        # x[len(x) - 1]
+        if isinstance(e, ast.Subscript) and isinstance(e.value, ast.Name) and isinstance(e.slice, ast.BinOp) \
+                and isinstance(e.slice.op, ast.Sub) and isinstance(e.slice.right, ast.Constant) and e.slice.right.value == 1 \
+                and not isinstance(e.slice.right.value, bool) and src(e.slice.left) == "len(%s)" % e.value.id:
+            return "(.lastOf %s)" % q(e.value.id)
+        if isinstance(e, ast.Subscript) and src(e.value) == "data" and self.in_data_loop and isinstance(e.slice, ast.Constant) \
+                and isinstance(e.slice.value, int) and not isinstance(e.slice.value, bool) and e.slice.value >= 0:
+            return "(.dataIdx %d)" % e.slice.value
+        if isinstance(e, ast.Compare) and len(e.ops) == 1 and isinstance(e.ops[0], ast.In):
+            if src(e.comparators[0]) == "self.ast.free_vars":
+                return "(.inFreeVars %s)" % self.expr(e.left)
+            if src(e.comparators[0]) == "self.online_operator_dict":
+                return "(.inOps %s)" % self.expr(e.left)
+        if t == "self.ast.out_var_field":
+            return ".outVarField"
+        if isinstance(e, ast.Call) and src(e.func) == "self.ast.create_var_from_name" and len(e.args) == 1 and not e.keywords:
+            return "(.createVar %s)" % self.expr(e.args[0])
+        return self.unsup(e)
+
+    # -- the sampling bookkeeping -----------------------------------------------------------------------------------
+    def clock_group(self, stmts):
+        """Consecutive statements of the bookkeeping: one `.clock <S>`; the locals of the fragment (those of the inlined
+        `update_sampling_violation_counter` included) are its own: none of them may be written by another statement of the
+        method, none of those it writes may be read by another statement."""
+        if any(isinstance(x, (ast.Return, ast.For, ast.While)) for st in stmts for x in ast.walk(st)):
+            return self.unsup(" ; ".join(src(st) for st in stmts))
+        term = self.clock_tr.block(list(stmts), 0)
+        reads = set(_re_upd.findall(r'\(\.loc "([^"]*)"\)', term))
+        writes = set(_re_upd.findall(r'\(\.setLoc "([^"]*)"', term))
+        others = [x for m in (self.scope_final or self.scope) for st in m.body if not any(st is c for c in self.clock_stmts) for x in ast.walk(st)]
+        o_writes = {x.id for x in others if isinstance(x, ast.Name) and isinstance(x.ctx, (ast.Store, ast.Del))}
+        o_reads = {x.id for x in others if isinstance(x, ast.Name) and isinstance(x.ctx, ast.Load)}
+        if ((reads | writes) & o_writes) or (writes & o_reads):
+            return self.unsup(" ; ".join(src(st) for st in stmts))
+        return "(.clock %s)" % term
+
+    def block(self, stmts):
+        items, run = [], []
+        for s in stmts:
+            if _mentions_clock(s):
+                run.append(s)
+                continue
+            if run:
+                items.append(self.clock_group(run))
+                run = []
+            items.append(self.stmt(s))
+        if run:
+            items.append(self.clock_group(run))
+        return self.seq(items)
+
+    # -- statements -------------------------------------------------------------------------------------------------
+    def inline(self, m, par_arg, where):
+        """`self.m(arg)` / `super(C, self).m()`: the body of `m` (no `return` with a value, no parameter assigned, its
+        locals not used by the caller)."""
+        if any(isinstance(x, ast.Return) and x.value is not None for st in m.body for x in ast.walk(st)):
+            return self.unsup(where)
+        body = list(m.body)
+        if body and isinstance(body[-1], ast.Return):
+            body.pop()
+        if any(isinstance(x, ast.Return) for st in body for x in ast.walk(st)):
+            return self.unsup(where)
+        mine = {x.id for x in ast.walk(m) if isinstance(x, ast.Name) and isinstance(x.ctx, ast.Store)}
+        theirs = {x.id for x in ast.walk(self.cur) if isinstance(x, ast.Name)}
+        pars = [a.arg for a in m.args.args]
+        if pars != ["self"] + ([par_arg] if par_arg else []) or m.args.vararg or m.args.kwarg or m.args.kwonlyargs \
+                or (mine & theirs) or m is self.cur or (par_arg in mine) or m in self.scope:
+            return self.unsup(where)
+        outer, self.cur = self.cur, m
+        self.scope.append(m)
+        try:
+            return self.block(body)
+        finally:
+            self.cur = outer
+
+    def stmt(self, s):
+        t = src(s)
+        if t in self.OPAQUE:
+            return "(.opaque %s)" % q(t)
+        if isinstance(s, ast.Pass) or (isinstance(s, ast.Expr) and isinstance(s.value, ast.Constant)):
+            return ".skip"
+        if isinstance(s, ast.Return) and s.value is None and self.cur is self.top and self.top.body and s is self.top.body[-1]:
+            return ".skip"                              # the bare `return` that ends the method
+        if isinstance(s, ast.Expr) and isinstance(s.value, ast.Call):
+            c = s.value
+            if t == self.RESET_AST:
+                return ".resetAst"
+            # super(C, self).m(): the method of the first base class (it defines `m`: the MRO stops there), inlined
+            if isinstance(c.func, ast.Attribute) and src(c.func.value) == "super(%s, self)" % self.cls_name and not c.args \
+                    and not c.keywords and self.parent_name is not None and self.parent_name == self.first_base \
+                    and c.func.attr in self.parent:
+                return self.inline(self.parent[c.func.attr], None, t)
+            # self.m(dataset): a method of the class with the one parameter `dataset`, inlined
+            if isinstance(c.func, ast.Attribute) and src(c.func.value) == "self" and c.func.attr in self.methods and not c.keywords \
+                    and len(c.args) == 1 and isinstance(c.args[0], ast.Name) \
+                    and c.args[0].id in [a.arg for a in self.top.args.args[1:]]:
+                return self.inline(self.methods[c.func.attr], c.args[0].id, t)
+            return self.unsup(s)
+        if isinstance(s, ast.Assign) and len(s.targets) == 1:
+            tg, v = s.targets[0], s.value
+            if isinstance(tg, ast.Name):
+                return "(.setLoc %s %s)" % (q(tg.id), self.expr(v))
+            if isinstance(tg, ast.Subscript) and src(tg.value) == "self.ast.var_object_dict":
+                return "(.setVar %s %s)" % (self.expr(tg.slice), self.expr(v))
+            return self.unsup(s)
+        if isinstance(s, ast.If):
+            return "(.ite %s %s %s)" % (self.expr(s.test), self.block(s.body), self.block(s.orelse))
+        if isinstance(s, ast.For) and not s.orelse and src(s.target) == "data" and isinstance(s.iter, ast.Name) \
+                and s.iter.id in [a.arg for a in self.cur.args.args[1:]] and not self.in_data_loop:
+            self.in_data_loop = True
+            try:
+                return "(.forData %s %s)" % (q(s.iter.id), self.block(s.body))
+            finally:
+                self.in_data_loop = False
+        if isinstance(s, ast.For) and not s.orelse and isinstance(s.target, ast.Name) and src(s.iter) == self.FOR_FREE \
+                and not any(isinstance(x, ast.Name) and x.id == s.target.id and isinstance(x.ctx, ast.Store)
+                            for st in s.body for x in ast.walk(st)):
+            return "(.forFree %s %s)" % (q(s.target.id), self.block(s.body))
+        return self.unsup(s)
+
+    def method(self, name):
+        m = self.methods.get(name)
+        if m is None:
+            return None
+        self.cur = self.top = m
+        self.scope = [m]
+        try:
+            a = m.args
+            if a.vararg or a.kwarg or a.kwonlyargs or a.defaults or not a.args or a.args[0].arg != "self" or m.decorator_list:
+                return "{ params := [], body := %s, ret := none }" % self.unsup("signature of " + name)
+            params = [x.arg for x in a.args[1:]]
+            if set(params) & {x.id for x in ast.walk(m) if isinstance(x, ast.Name) and isinstance(x.ctx, (ast.Store, ast.Del))}:
+                return "{ params := [], body := %s, ret := none }" % self.unsup("parameter assigned in " + name)
+            body = list(m.body)
+            ret = "none"
+            if body and isinstance(body[-1], ast.Return) and body[-1].value is not None:
+                ret = "(some %s)" % self.expr(body.pop().value)
+            if any(isinstance(x, ast.Return) and not (x is body[-1] and x.value is None) for st in body for x in ast.walk(st)):
+                return "{ params := [%s], body := %s, ret := none }" % (", ".join(q(p_) for p_ in params), self.unsup("return inside " + name))
+            # (the statements of the bookkeeping, for the check of `clock_group`: those of this method and of the inlined ones)
+            self.clock_stmts = [st for mm in [m] + list(self.methods.values()) + list(self.parent.values()) for st in mm.body
+                                if _mentions_clock(st)]
+            self.scope_final = None
+            self.block(body)                            # (first pass: which methods get inlined)
+            self.scope_final, self.scope = list(self.scope), [m]
+            return "{ params := [%s], body := %s, ret := %s }" % (", ".join(q(p_) for p_ in params), self.block(body), ret)
+        finally:
+            self.cur = self.top = None
+
+    def visitors(self):
+        """`self.<x>Visitor = C()` in `__init__`: which classes the two visitors are instances of."""
+        out = []
+        m = self.methods.get("__init__")
+        for s in (m.body if m is not None else []):
+            if isinstance(s, ast.Assign) and len(s.targets) == 1 and isinstance(s.targets[0], ast.Attribute) \
+                    and src(s.targets[0].value) == "self" and s.targets[0].attr.endswith("Visitor"):
+                v = s.value
+                out.append((s.targets[0].attr, v.func.id if isinstance(v, ast.Call) and isinstance(v.func, ast.Name) and not v.args
+                            and not v.keywords else "unsupported: " + src(v)))
+        return out
+
+
+def generate_glue_update(interp_file=None, parent_file=None):
+    """`AbstractDiscreteTimeOnlineInterpreter.update` / `.reset` as whole methods."""
+    interp_file = interp_file or GLUE_UPD_INTERP_FILE or os.path.join(REPO, ONLINE_INTERP_FILE)
+    parent_file = parent_file or GLUE_UPD_PARENT_FILE or os.path.join(REPO, ONLINE_GLUE_FILE)
+
+    def classes(path):
+        return {n.name: n for n in ast.parse(open(path).read()).body if isinstance(n, ast.ClassDef)}
+    cls2, cls = classes(interp_file), classes(parent_file)
+    # the translator of the bookkeeping, set up as in `generate_clock`
+    base = classes(os.path.join(REPO, INTERP_FILE)).get("DiscreteTimeInterpreter")
+    btr = Tr(base)
+    btr.interp = True
+    btr.clock = True
+    btr.parents = {}
+    norm = btr.methods.get("normalize")
+    nexpr = None
+    if norm is not None and len(norm.body) == 1 and isinstance(norm.body[0], ast.Try) and len(norm.body[0].body) == 1 \
+            and isinstance(norm.body[0].body[0], ast.Return):
+        nexpr = norm.body[0].body[0].value
+    elif norm is not None and len(norm.body) == 1 and isinstance(norm.body[0], ast.Return):
+        nexpr = norm.body[0].value
+    btr.normalize_expr = nexpr
+    CN = "AbstractDiscreteTimeOnlineInterpreter"
+    lines = ["/- GENERATED by harness/py2lean.py from %s, %s and %s of /repo on every run - do not edit. -/"
+             % (ONLINE_INTERP_FILE, ONLINE_GLUE_FILE, INTERP_FILE),
+             "import Rtamt.Py.GlueUpd", "", "namespace Rtamt.Py.Gen.GlueUpd", "open Rtamt Rtamt.Py Rtamt.Py.GUpd", ""]
+    missing = "{ params := [], body := (.unsupported \"missing\"), ret := none }"
+    it = None
+    if CN in cls2:
+        ctr = Tr(cls2[CN])
+        ctr.interp = True
+        ctr.clock = True
+        ctr.normalize_expr = nexpr
+        ctr.parents = {"DiscreteTimeInterpreter": btr}
+        pn = "AbstractOnlineInterpreter"
+        it = GlueUpdTr(cls2[CN], ctr, pn if pn in cls else None, cls.get(pn))
+    names = []
+    for nm, note in (("update", " (`set_variable_to_ast_from_dataset` inlined)"),
+                     ("reset", " (`AbstractOnlineInterpreter.reset` inlined)"),
+                     ("set_variable_to_ast_from_dataset", "")):
+        lines.append("/-- `%s.%s`%s -/" % (CN, nm, note))
+        lines.append("def interp_%s : UMethod :=\n  %s" % (nm, (it.method(nm) if it is not None else None) or missing))
+        lines.append("")
+        names.append("interp_" + nm)
+    lines.append("def methods : List (String × UMethod) :=\n  [%s]" % ", ".join("(%s, %s)" % (q(n), n) for n in names))
+    lines.append("")
+    lines.append("/-- `self.updateVisitor = …()` / `self.resetVisitor = …()` in `__init__` -/")
+    lines.append("def visitors : List (String × String) :=\n  [%s]"
+                 % ", ".join("(%s, %s)" % (q(a), q(b)) for a, b in (it.visitors() if it is not None else [])))
+    lines.append("")
+    lines.append("end Rtamt.Py.Gen.GlueUpd")
+    return "\n".join(lines) + "\n"
+# ---- END discrete-time online update()/reset() as whole methods (generate_glue_update) ------------------------------
+
+
+# ---- BEGIN offline evaluate (generate_offline_evaluate) -------------------------------------------------------------
+# `AbstractDiscreteTimeOfflineInterpreter.evaluate(dataset)` as a whole method (with `exist_ast` and
+# `set_variable_to_ast_from_dataset` inlined) and `AbstractAstVisitor.visitAst` -> terms of `Rtamt/Py/OffEval.lean`
+# (file `lean/Rtamt/Py/GeneratedOffEval.lean`).  The gap loop (`for i in range(...)`) is translated by the translator of
+# the sampling bookkeeping (`Tr` with `clock = True`, as in `generate_clock`) into the language of `Sem.lean`.
+OE_OFFLINE_INTERP_FILE = "rtamt/semantics/abstract_discrete_time_offline_interpreter.py"
+OE_INTERP_FILE = "rtamt/semantics/discrete_time_interpreter.py"
+OUT_OFFEVAL = os.path.join(os.path.dirname(HERE), "lean", "Rtamt", "Py", "GeneratedOffEval.lean")
+# the classes of `DiscreteTimeOfflineInterpreter(AbstractDiscreteTimeOfflineInterpreter, StlDiscreteTimeOfflineAstVisitor)` in the
+# order of its MRO (the class statements found are written into the generated file and checked there)
+OE_MRO = [("DiscreteTimeOfflineInterpreter", OE_OFFLINE_INTERP_FILE),
+          ("AbstractDiscreteTimeOfflineInterpreter", OE_OFFLINE_INTERP_FILE),
+          ("AbstractOfflineInterpreter", "rtamt/semantics/abstract_offline_interpreter.py"),
+          ("AbstractInterpreter", "rtamt/semantics/abstract_interpreter.py"),
+          ("DiscreteTimeInterpreter", OE_INTERP_FILE),
+          ("TimeInterpreter", "rtamt/semantics/time_interpreter.py"),
+          ("StlDiscreteTimeOfflineAstVisitor", "rtamt/semantics/stl/discrete_time/offline/ast_visitor.py"),
+          ("StlAstVisitor", "rtamt/syntax/ast/visitor/stl/ast_visitor.py"),
+          ("LtlAstVisitor", "rtamt/syntax/ast/visitor/ltl/ast_visitor.py"),
+          ("AbstractAstVisitor", "rtamt/syntax/ast/visitor/abstract_ast_visitor.py")]
+OE_METHODS = ["evaluate", "set_variable_to_ast_from_dataset", "exist_ast", "visitAst", "visit"]
+
+
+def _offeval_clock_tr():
+    """The translator of the sampling bookkeeping for the offline interpreter, set up as in `generate_clock`."""
+    base_tree = ast.parse(open(os.path.join(REPO, OE_INTERP_FILE)).read())
+    base = [n for n in base_tree.body if isinstance(n, ast.ClassDef) and n.name == "DiscreteTimeInterpreter"][0]
+    btr = Tr(base)
+    btr.interp = True
+    btr.clock = True
+    btr.parents = {}
+    norm = btr.methods.get("normalize")
+    nexpr = None
+    if norm is not None and len(norm.body) == 1 and isinstance(norm.body[0], ast.Try) and len(norm.body[0].body) == 1 \
+            and isinstance(norm.body[0].body[0], ast.Return):
+        nexpr = norm.body[0].body[0].value
+    elif norm is not None and len(norm.body) == 1 and isinstance(norm.body[0], ast.Return):
+        nexpr = norm.body[0].value
+    btr.normalize_expr = nexpr
+    tree = ast.parse(open(os.path.join(REPO, OE_OFFLINE_INTERP_FILE)).read())
+    cls = [n for n in tree.body if isinstance(n, ast.ClassDef) and n.name == "AbstractDiscreteTimeOfflineInterpreter"][0]
+    tr = Tr(cls)
+    tr.interp = True
+    tr.clock = True
+    tr.normalize_expr = nexpr
+    tr.parents = {"DiscreteTimeInterpreter": btr}
+    return tr
+
+
+class OffEvalTr:
+    """Methods of the discrete-time offline interpreter -> terms of `Rtamt/Py/OffEval.lean`."""
+
+    def __init__(self, resolve, clock_tr):
+        self.resolve = resolve         # method name -> (defining class, FunctionDef): the first class of the MRO that has it
+        self.clock_tr = clock_tr
+        self.cur = None                # the method being translated (the outermost one while a call is inlined)
+        self.sig = None                # the method whose parameters are in scope
+
+    def unsup(self, x):
+        return "(.unsupported %s)" % q(x if isinstance(x, str) else src(x))
+
+    def expr(self, e):
+        t = src(e)
+        if isinstance(e, ast.Name):
+            return "(.loc %s)" % q(e.id)
+        if isinstance(e, ast.Constant):
+            if isinstance(e.value, str):
+                return "(.strLit %s)" % q(e.value)
+            if isinstance(e.value, int) and not isinstance(e.value, bool):
+                return "(.intLit %d)" % e.value
+            return self.unsup(e)
+        if isinstance(e, ast.Compare) and len(e.ops) == 1:
+            if isinstance(e.ops[0], ast.Is) and src(e.left) == "self.ast" and isinstance(e.comparators[0], ast.Constant) \
+                    and e.comparators[0].value is None:
+                return ".astIsNone"
+            if isinstance(e.ops[0], ast.NotEq):
+                return "(.ne %s %s)" % (self.expr(e.left), self.expr(e.comparators[0]))
+            return self.unsup(e)
+        if t == "self.ast":
+            return ".selfAst"
+        if isinstance(e, ast.Attribute) and e.attr == "specs" and isinstance(e.value, ast.Name) and self.sig is not None \
+                and e.value.id in [a.arg for a in self.sig.args.args[1:]]:
+            return "(.specsOf %s)" % q(e.value.id)
+        if isinstance(e, ast.Subscript) and not isinstance(e.slice, (ast.Slice, ast.Tuple)):
+            return "(.idx %s %s)" % (self.expr(e.value), self.expr(e.slice))
+        if isinstance(e, ast.BinOp) and isinstance(e.op, ast.Sub):
+            return "(.sub %s %s)" % (self.expr(e.left), self.expr(e.right))
+        if isinstance(e, ast.List):
+            if not e.elts:
+                return ".emptyList"
+            if len(e.elts) == 2 and not any(isinstance(x, ast.Starred) for x in e.elts):
+                return "(.pair2 %s %s)" % (self.expr(e.elts[0]), self.expr(e.elts[1]))
+            return self.unsup(e)
+        if isinstance(e, ast.ListComp) and len(e.generators) == 1 and not e.generators[0].ifs and not e.generators[0].is_async \
+                and isinstance(e.generators[0].target, ast.Name):
+            g = e.generators[0]
+            return "(.comp %s %s %s)" % (self.expr(e.elt), q(g.target.id), self.expr(g.iter))
+        if isinstance(e, ast.Call) and isinstance(e.func, ast.Name) and not e.keywords \
+                and not any(isinstance(a, ast.Starred) for a in e.args):
+            if e.func.id == "len" and len(e.args) == 1:
+                return "(.len %s)" % self.expr(e.args[0])
+            if e.func.id == "zip" and len(e.args) == 2:
+                return "(.zip %s %s)" % (self.expr(e.args[0]), self.expr(e.args[1]))
+            return self.unsup(e)
+        if isinstance(e, ast.Call) and src(e.func) == "self.visit" and self.sig is not None:
+            # self.visit(node, *args, **kwargs) with the star parameters of the enclosing method
+            va, kw = self.sig.args.vararg, self.sig.args.kwarg
+            if va is not None and kw is not None and len(e.args) == 2 and not isinstance(e.args[0], ast.Starred) \
+                    and isinstance(e.args[1], ast.Starred) and src(e.args[1].value) == va.arg \
+                    and len(e.keywords) == 1 and e.keywords[0].arg is None and src(e.keywords[0].value) == kw.arg:
+                return "(.visit %s %s %s)" % (self.expr(e.args[0]), q(va.arg), q(kw.arg))
+            return self.unsup(e)
+        if isinstance(e, ast.Call) and src(e.func) == "self.visitAst" and not e.keywords and len(e.args) == 2 \
+                and not any(isinstance(a, ast.Starred) for a in e.args):
+            r = self.resolve.get("visitAst")
+            if r is not None:
+                a = r[1].args
+                if len(a.args) == 2 and a.vararg is not None and a.kwarg is not None and not a.defaults and not a.kwonlyargs:
+                    return "(.callVisitAst %s %s)" % (self.expr(e.args[0]), self.expr(e.args[1]))
+            return self.unsup(e)
+        return self.unsup(e)
+
+    def seq(self, items):
+        items = [i for i in items if i != ".skip"]
+        if not items:
+            return ".skip"
+        out = items[-1]
+        for i in reversed(items[:-1]):
+            out = "(.seq %s %s)" % (i, out)
+        return out
+
+    def block(self, stmts):
+        return self.seq([self.stmt(s) for s in stmts])
+
+    def inline(self, c):
+        """`self.m(x, …)`, `m` a method whose parameters are exactly the names `x, …` and that returns nothing: its body."""
+        r = self.resolve.get(c.func.attr)
+        if r is None or c.keywords or self.cur is None:
+            return None
+        m = r[1]
+        a = m.args
+        if a.vararg or a.kwarg or a.kwonlyargs or a.defaults or m.decorator_list or not a.args or a.args[0].arg != "self":
+            return None
+        params = [x.arg for x in a.args[1:]]
+        if [src(x) for x in c.args] != params:
+            return None
+        body = list(m.body)
+        if body and isinstance(body[-1], ast.Return) and body[-1].value is None:
+            body.pop()
+        if any(isinstance(x, ast.Return) for st in body for x in ast.walk(st)):
+            return None
+        mine = {x.id for x in ast.walk(m) if isinstance(x, ast.Name) and isinstance(x.ctx, ast.Store)}
+        theirs = {x.id for x in ast.walk(self.cur) if isinstance(x, ast.Name)}
+        if (mine & theirs) or (mine & set(params)) or m is self.cur:
+            return None
+        outer, self.sig = self.sig, m
+        try:
+            return self.block(body)
+        finally:
+            self.sig = outer
+
+    def gap_loop(self, s):
+        """`for i in range(…)`: the sampling bookkeeping, in the language of `Sem.lean`; it reads `ts` only and none of the names it
+        assigns occurs elsewhere in the method."""
+        import re
+        term = self.clock_tr.stmt(s, 0)
+        stored = set(re.findall(r'\(\.setLoc "([^"]*)"', term)) | set(re.findall(r'\(\.for_ "([^"]*)"', term))
+        loaded = set(re.findall(r'\(\.loc "([^"]*)"\)', term)) - stored
+        inside = {id(x) for x in ast.walk(s)}
+        outside = {x.id for x in ast.walk(self.cur) if isinstance(x, ast.Name) and id(x) not in inside}
+        if not loaded <= {"ts", "$unit"} or (stored & outside):
+            return self.unsup(s)
+        return "(.clock %s)" % term
+
+    def stmt(self, s):
+        if isinstance(s, ast.Pass) or (isinstance(s, ast.Expr) and isinstance(s.value, ast.Constant)):
+            return ".skip"
+        if isinstance(s, ast.Assign) and len(s.targets) == 1:
+            tg, v = s.targets[0], s.value
+            if isinstance(tg, ast.Name):
+                return "(.setLoc %s %s)" % (q(tg.id), self.expr(v))
+            if isinstance(tg, ast.Subscript) and src(tg.value) == "self.ast.var_object_dict":
+                return "(.setVar %s %s)" % (self.expr(tg.slice), self.expr(v))
+            if isinstance(tg, ast.Subscript) and src(tg.value) == "self.ast.results":
+                return "(.setResult %s %s)" % (self.expr(tg.slice), self.expr(v))
+            return self.unsup(s)
+        if isinstance(s, ast.Expr) and isinstance(s.value, ast.Call):
+            c = s.value
+            if isinstance(c.func, ast.Attribute) and c.func.attr == "append" and isinstance(c.func.value, ast.Name) and len(c.args) == 1 \
+                    and not c.keywords and not isinstance(c.args[0], ast.Starred):
+                return "(.appendLoc %s %s)" % (q(c.func.value.id), self.expr(c.args[0]))
+            if isinstance(c.func, ast.Attribute) and src(c.func.value) == "self":
+                r = self.inline(c)
+                if r is not None:
+                    return r
+            return self.unsup(s)
+        if isinstance(s, ast.If):
+            return "(.ite %s %s %s)" % (self.expr(s.test), self.block(s.body), self.block(s.orelse))
+        if isinstance(s, ast.Raise) and isinstance(s.exc, ast.Call) and isinstance(s.exc.func, ast.Name) and s.cause is None \
+                and s.exc.func.id in ("RTAMTException", "Exception"):
+            return "(.raise .rtamt)" if s.exc.func.id == "RTAMTException" else "(.raise .other)"
+        if isinstance(s, ast.For) and not s.orelse and isinstance(s.target, ast.Name):
+            if isinstance(s.iter, ast.Call) and isinstance(s.iter.func, ast.Name) and s.iter.func.id == "range":
+                return self.gap_loop(s)
+            return "(.forIn %s %s %s)" % (q(s.target.id), self.expr(s.iter), self.block(s.body))
+        return self.unsup(s)
+
+    def method(self, name):
+        r = self.resolve.get(name)
+        if r is None:
+            return "{ params := [], body := (.unsupported \"missing method\"), ret := none }"
+        m = r[1]
+        a = m.args
+        if a.kwonlyargs or a.defaults or a.posonlyargs or m.decorator_list or not a.args or a.args[0].arg != "self":
+            return "{ params := [], body := (.unsupported %s), ret := none }" % q("signature of " + name)
+        params = [x.arg for x in a.args[1:]] + ([a.vararg.arg] if a.vararg else []) + ([a.kwarg.arg] if a.kwarg else [])
+        body = list(m.body)
+        ret = "none"
+        self.cur = self.sig = m
+        try:
+            if body and isinstance(body[-1], ast.Return):
+                rv = body.pop().value
+                if rv is not None:
+                    ret = "(some %s)" % self.expr(rv)
+            if any(isinstance(x, ast.Return) for st in body for x in ast.walk(st)):
+                btxt = self.unsup("return inside " + name)
+            else:
+                btxt = self.block(body)
+        finally:
+            self.cur = self.sig = None
+        return "{ params := [%s], body := %s, ret := %s }" % (", ".join(q(p) for p in params), btxt, ret)
+
+
+def generate_offline_evaluate():
+    """`evaluate(dataset)` of the discrete-time offline interpreter and `visitAst`."""
+    found = []                     # (class, bases as written, {method name: FunctionDef})
+    for cname, path in OE_MRO:
+        try:
+            tree = ast.parse(open(os.path.join(REPO, path)).read())
+        except OSError:
+            continue
+        cs = [n for n in ast.walk(tree) if isinstance(n, ast.ClassDef) and n.name == cname]
+        if len(cs) != 1:
+            continue
+        c = cs[0]
+        defs = [n for n in c.body if isinstance(n, ast.FunctionDef)]
+        methods = {}
+        for n in defs:
+            # a name defined twice in one class statement: the last definition is the attribute
+            methods[n.name] = n
+        # anything else in the class body that binds one of the names (an assignment `visitAst = …`) makes it unresolved
+        other = {t.id for n in c.body if isinstance(n, (ast.Assign, ast.AnnAssign))
+                 for t in (n.targets if isinstance(n, ast.Assign) else [n.target]) if isinstance(t, ast.Name)}
+        for nm in other:
+            methods[nm] = None
+        found.append((cname, [src(b) for b in c.bases], methods))
+    resolve, resolution = {}, []
+    for nm in OE_METHODS:
+        for cname, _, methods in found:
+            if nm in methods:
+                if methods[nm] is not None:
+                    resolve[nm] = (cname, methods[nm])
+                resolution.append("(%s, %s)" % (q(nm), q(cname if methods[nm] is not None else cname + " (not a def)")))
+                break
+        else:
+            resolution.append("(%s, %s)" % (q(nm), q("")))
+    tr = OffEvalTr(resolve, _offeval_clock_tr())
+    files = []
+    for _, p_ in OE_MRO:
+        if p_ not in files:
+            files.append(p_)
+    lines = ["/- GENERATED by harness/py2lean.py from %s of /repo on every run - do not edit. -/" % ", ".join(files),
+             "import Rtamt.Py.OffEval", "", "namespace Rtamt.Py.Gen.OffEval", "open Rtamt Rtamt.Py Rtamt.Py.OffEval", ""]
+    lines.append("/-- the classes of `DiscreteTimeOfflineInterpreter` in the order of its MRO, with the base classes as written -/")
+    lines.append("def bases : List (String × List String) :=\n  [%s]"
+                 % ", ".join("(%s, [%s])" % (q(c), ", ".join(q(b) for b in bs)) for c, bs, _ in found))
+    lines.append("")
+    lines.append("/-- the first class of that order that defines the method -/")
+    lines.append("def resolution : List (String × String) :=\n  [%s]" % ", ".join(resolution))
+    lines.append("")
+    names = []
+    for nm, note in (("evaluate", " (`exist_ast` and `set_variable_to_ast_from_dataset` inlined)"), ("visitAst", "")):
+        lines.append("/-- `%s.%s`%s -/" % (resolve[nm][0] if nm in resolve else "?", nm, note))
+        lines.append("def %s : OMethod :=\n  %s" % (nm, tr.method(nm)))
+        lines.append("")
+        names.append(nm)
+    lines.append("def methods : List (String × OMethod) :=\n  [%s]" % ", ".join("(%s, %s)" % (q(n), n) for n in names))
+    lines.append("")
+    lines.append("end Rtamt.Py.Gen.OffEval")
+    return "\n".join(lines) + "\n"
+# ---- END offline evaluate (generate_offline_evaluate) ---------------------------------------------------------------
+
+
 # ---- BEGIN specification-level forwarding (rtamt/spec/abstract_specification.py -> Rtamt/Py/GeneratedFwd.lean) ----
 SPEC_FILE = "rtamt/spec/abstract_specification.py"
 OUT_FWD = os.path.join(os.path.dirname(HERE), "lean", "Rtamt", "Py", "GeneratedFwd.lean")
@@ -2486,6 +3037,8 @@ def main():
     write_if_changed(OUT_EXPL, generate_expl())
     write_if_changed(OUT_GLUE, generate_glue())
     write_if_changed(OUT_GLUE_DN, generate_glue_dense())     # dense-time glue
+    write_if_changed(OUT_OFFEVAL, generate_offline_evaluate())     # offline evaluate
+    write_if_changed(OUT_GLUE_UPD, generate_glue_update())   # discrete-time online update()/reset() as whole methods
     write_if_changed(OUT_FWD, generate_fwd())
     write_if_changed(OUT_NAMES, generate_names())
     write_if_changed(OUT_HOR, generate_horizon())
